@@ -199,6 +199,8 @@ def build_leaf(spec, pscale=0.0):
         kw = dict(numinv=True)
     else:
         raise ValueError(f"unknown leaf kind {k}")
+    if k == "Planar" and cond is not None and "ps" not in spec:
+        spec = dict(spec, ps=0.3)  # conditioner MLP: keep w.u out of the region where 1 + w.u_hat underflows to 0
     if k in ("Affine", "Scale", "TriangularAffine") and spec.get("neg"):
         obj = _perturb_keep_sign(obj, pscale * float(spec.get("ps", 1.0)), int(spec.get("seed", 0)) + 17)
     else:
